@@ -142,7 +142,7 @@ func goEnv() []string {
 // the program did not build or did not finish (then nothing can be concluded).
 func GroundTruth(dir string) (map[Pair]bool, error) {
 	bin := filepath.Join(dir, "gt.bin")
-	ctx, cancel := context.WithTimeout(context.Background(), 10*time.Minute)
+	ctx, cancel := context.WithTimeout(context.Background(), 3*time.Hour) // generous: the sandbox is often overloaded; generated programs have bounded loops
 	defer cancel()
 	cmd := exec.CommandContext(ctx, "go", "build", "-tags", "gt", "-o", bin, ".")
 	cmd.Dir, cmd.Env = dir, goEnv()
